@@ -129,6 +129,12 @@ func (x *Exec) callEffects(c *ssa.CallCommon) effects {
 			}
 		case "delete":
 			mt := c.Args[0].Type().Underlying().(*types.Map)
+			if ks := flatten(mt.Key()); len(ks) == 1 {
+				x.mapInfo["MapD:"+typeKey(mt)] = arrSort(arrSortK(ks[0].Sort, sBool))
+				for _, lf := range flatten(mt.Elem()) {
+					x.mapInfo["MapV:"+typeKey(mt)+":"+lf.Path] = arrSort(arrSortK(ks[0].Sort, lf.Sort))
+				}
+			}
 			e.heap = append(e.heap, mapHeapNames(mt)...)
 		case "clear":
 			e.all = true
@@ -424,6 +430,11 @@ func (x *Exec) doCall(st *State, ins ssa.Instruction, c *ssa.CallCommon, d *defe
 		}
 	}
 	var res Value
+	if _, isB := c.Value.(*ssa.Builtin); !isB {
+		for _, a := range args {
+			st.escape(a)
+		}
+	}
 	if b, ok := c.Value.(*ssa.Builtin); ok {
 		res = x.doBuiltin(st, ins, b, c, args)
 	} else {
@@ -498,6 +509,13 @@ func (x *Exec) bindEventArgs(env *Env, ev *Event, args []Value, rets []Value) {
 // applyCallee applies a contract (or havoc) for a non-builtin call.
 func (x *Exec) applyCallee(st *State, ins ssa.Instruction, c *ssa.CallCommon, args []Value, names []string) Value {
 	rt := resultType(c)
+	if c.IsInvoke() && len(args) > 0 {
+		// calling a method on a nil interface value panics
+		x.safety(st, "nilinvoke", ins, mkNot(mkEq(args[0].L[0], tZero)), "method call on nil interface value")
+		if st.dead {
+			return x.freshValue(st, "noret", rt)
+		}
+	}
 	ctr := x.findContract(c)
 	x.frameCall(st, ins, c, ctr, args, names[0])
 	if ctr == nil {
